@@ -487,3 +487,124 @@ pub fn clip_of(pre_noise: &Relation, col: &str) -> Option<f64> {
     }
     None
 }
+
+// ---------------------------------------------------------------------------------------------
+// Static column lineage of a rewritten relation (C02's "column lineage in the IR"): which output
+// columns carry a value dependency on a column of a protected table that crosses neither a
+// Gaussian-noise expression nor the key-release (threshold) map.
+
+fn columns_of(e: &Expr, out: &mut Vec<String>) {
+    match e {
+        Expr::Column(c) => {
+            if let Ok(n) = c.last() {
+                out.push(n.to_string());
+            }
+        }
+        Expr::Function(f) => {
+            for a in f.arguments().iter() {
+                columns_of(a, out);
+            }
+        }
+        Expr::Aggregate(a) => columns_of(a.argument(), out),
+        Expr::Struct(_) | Expr::Value(_) => {}
+    }
+}
+
+fn is_threshold_map(m: &Map) -> bool {
+    if let (Some(f), Relation::Map(inp)) = (m.filter(), m.input()) {
+        if let Some((nm, _)) = noise_map_of(inp) {
+            let mut cmp = vec![];
+            comparisons(f, &mut cmp);
+            return cmp.iter().any(|(col, _, _)| nm.cols.iter().any(|c| &c.name == col));
+        }
+    }
+    false
+}
+
+/// Per output field: Some(witness path) if an un-noised dependency on a protected table exists.
+fn lineage<'a>(
+    r: &'a Relation,
+    protected: &dyn Fn(&str) -> bool,
+    memo: &mut Vec<(&'a Relation, Vec<Option<String>>)>,
+) -> Vec<Option<String>> {
+    if let Some((_, v)) = memo.iter().find(|(n, _)| n.name() == r.name() && *n == r) {
+        return v.clone();
+    }
+    let out: Vec<Option<String>> = match r {
+        Relation::Table(t) => {
+            let path = t.path().to_string();
+            let prot = protected(&path);
+            r.schema().iter().map(|f| if prot { Some(format!("{}.{}", path, f.name())) } else { None }).collect()
+        }
+        Relation::Values(_) => r.schema().iter().map(|_| None).collect(),
+        Relation::Map(m) => {
+            let ti = lineage(m.input(), protected, memo);
+            let names: Vec<String> = m.input().schema().iter().map(|f| f.name().to_string()).collect();
+            if is_threshold_map(m) {
+                m.schema().iter().map(|_| None).collect()
+            } else {
+                m.field_exprs()
+                    .into_iter()
+                    .map(|(field, expr)| {
+                        if contains_bm_fragment(expr) {
+                            return None;
+                        }
+                        let mut cols = vec![];
+                        columns_of(expr, &mut cols);
+                        for c in cols {
+                            if let Some(i) = names.iter().position(|n| *n == c) {
+                                if let Some(w) = &ti[i] {
+                                    return Some(format!("{}.{} <- {}", m.name(), field.name(), w));
+                                }
+                            }
+                        }
+                        None
+                    })
+                    .collect()
+            }
+        }
+        Relation::Reduce(red) => {
+            let ti = lineage(red.input(), protected, memo);
+            let names: Vec<String> = red.input().schema().iter().map(|f| f.name().to_string()).collect();
+            red.field_aggregates()
+                .into_iter()
+                .map(|(field, agg)| {
+                    let c = agg.column().last().ok()?.to_string();
+                    let i = names.iter().position(|n| *n == c)?;
+                    ti[i].as_ref().map(|w| format!("{}.{} <- {}", red.name(), field.name(), w))
+                })
+                .collect()
+        }
+        Relation::Join(j) => {
+            let mut v = lineage(j.left(), protected, memo);
+            v.extend(lineage(j.right(), protected, memo));
+            let names: Vec<String> = j.schema().iter().map(|f| f.name().to_string()).collect();
+            v.into_iter().zip(names).map(|(w, n)| w.map(|w| format!("{}.{} <- {}", j.name(), n, w))).collect()
+        }
+        Relation::Set(s) => {
+            let l = lineage(s.left(), protected, memo);
+            let rr = lineage(s.right(), protected, memo);
+            let names: Vec<String> = s.schema().iter().map(|f| f.name().to_string()).collect();
+            (0..names.len())
+                .map(|i| {
+                    let w = l.get(i).cloned().flatten().or_else(|| rr.get(i).cloned().flatten());
+                    w.map(|w| format!("{}.{} <- {}", s.name(), names[i], w))
+                })
+                .collect()
+        }
+    };
+    memo.push((r, out.clone()));
+    out
+}
+
+/// Output columns of `root` that depend on a protected table column without crossing noise or
+/// the key-release map: (column name, lineage witness).
+pub fn unnoised_outputs(root: &Relation, protected: &dyn Fn(&str) -> bool) -> Vec<(String, String)> {
+    let mut memo = vec![];
+    let v = lineage(root, protected, &mut memo);
+    root.schema()
+        .iter()
+        .zip(v)
+        .filter_map(|(f, w)| w.map(|w| (f.name().to_string(), w)))
+        .collect()
+}
